@@ -32,6 +32,8 @@ fn new_idx(entry: &str) -> Option<Box<dyn IdxEntry>> {
 }
 
 struct World {
+    /// handles whose last push was refused: the crate gives no guarantee about their state
+    poisoned: std::collections::HashSet<String>,
     regions: HashMap<String, Box<dyn Entry>>,
     idxs: HashMap<String, Box<dyn IdxEntry>>,
     strides: HashMap<String, StrideEntry>,
@@ -51,8 +53,37 @@ fn repr(s: &str) -> Option<bool> {
 impl World {
     fn step(&mut self, line: &str) -> String {
         let parts: Vec<&str> = line.trim().split(' ').collect();
+        // which words of the line name existing handles that are read or mutated
+        let used: &[&str] = match parts.as_slice() {
+            ["new", ..] | ["reset"] | ["forms", ..] | ["sizeof", ..] | ["allocs"] => &[],
+            ["merge", _, _, srcs @ ..] => srcs,
+            ["clone", _, h] | ["serde", _, h] => std::slice::from_ref(h),
+            ["cmp", h1, _, _, h2, _, _] => if self.poisoned.contains(*h1) { std::slice::from_ref(h1) } else { std::slice::from_ref(h2) },
+            ["x", h, ..] => std::slice::from_ref(h),
+            [_, rest @ ..] => rest,
+            [] => &[],
+        };
+        if used.iter().any(|h| self.poisoned.contains(*h)) {
+            // whatever this operation would have created or mutated is unknown now
+            if let ["merge" | "clone" | "serde" | "clone_from" | "pushitem" | "reserve_regions", h, ..] = parts.as_slice() {
+                self.poisoned.insert(h.to_string());
+            }
+            return "poisoned".into();
+        }
         match parts.as_slice() {
+            ["new", h, ..] | ["merge", h, ..] | ["clone", h, _] | ["serde", h, _] => { self.poisoned.remove(*h); }
+            _ => {}
+        }
+        let reply = self.step_inner(&parts);
+        if reply == "refused" {
+            if let [_, h, ..] = parts.as_slice() { self.poisoned.insert(h.to_string()); }
+        }
+        reply
+    }
+    fn step_inner(&mut self, parts: &[&str]) -> String {
+        match parts {
             ["reset"] => {
+                self.poisoned.clear();
                 self.regions.clear();
                 self.idxs.clear();
                 self.strides.clear();
@@ -280,7 +311,7 @@ fn main() {
     if std::env::var("FCX_VERBOSE").is_err() { std::panic::set_hook(Box::new(|_| {})); }
     let path = std::env::args().nth(1).expect("usage: fcx <reply-file> < script");
     let mut out = std::io::BufWriter::new(std::fs::File::create(path).unwrap());
-    let mut w = World { regions: HashMap::new(), idxs: HashMap::new(), strides: HashMap::new() };
+    let mut w = World { poisoned: Default::default(), regions: HashMap::new(), idxs: HashMap::new(), strides: HashMap::new() };
     let stdin = std::io::stdin();
     for line in stdin.lock().lines() {
         let line = line.unwrap();
